@@ -90,7 +90,7 @@ send = Fn(F, [IMPL, "send"], ret="r", extra_params="Tracked(k): Tracked<&mut K>"
         0: Loop(iter_name="it", invariants=[
             Clause("unix.send/loop0.invariant.fds", "fds@ == chan_fds(channels@).subrange(0, it.index()) && *k == k0", ["C04"])]),
         1: Loop(iter_name="it", invariants=[
-            Clause("unix.send/loop1.invariant.fds", "fds@ == chan_fds(channels@) + region_fds(shared_memory_regions@).subrange(0, it.index()) && *k == k0", ["C04"])]),
+            Clause("unix.send/loop1.invariant.fds", "fds@ == chan_fds(channels@) + region_fds(shared_memory_regions@).subrange(0, it.index()) && *k == k0", ["C04", "C05"])]),
         2: Loop(invariants=INV_COMMON, decreases="data.len() - byte_position, sendbuf_size"),
     },
     hints=[
@@ -144,7 +144,7 @@ UNIT = Unit(
     name="u2_send",
     prelude=["units/common.rs", "units/unix_types.rs", "units/u2_send.rs"],
     groups=[("impl OsIpcChannel", [chan_fd]), (IMPL, [fragment_size, first_fragment_size, get_max_fragment_size, send])],
-    props=["C01", "C02", "C04", "C09", "C12", "C13", "C15", "C18"],
+    props=["C01", "C02", "C04", "C05", "C09", "C12", "C13", "C15", "C18"],
     prelude_clauses={
         "unix.send_first_fragment/requires.fds_le_max": ["C15", "C18"],
         "unix.send_first_fragment/requires.fits_first_iovec": ["C13", "C01", "C18"],
